@@ -108,6 +108,7 @@ structure RelD (be : Backend) (E : Enc κ δ ε) (kindOf : Nat → Kind) (colf :
       (wideKey be.padKey (E.plc c) (E.encD c d) (E.encK c k)) = wide c d k
   sets : ∀ c, kindOf c = .set → ∀ x, x ∈ akeys (colf (cfName be.namePrefix .set c)) ↔
     ∃ k e, x = setKey (E.encK c k) (E.encE c e) ∧ sets c k e = true
+  nodup : ∀ n, (akeys (colf n)).Nodup
 
 /-- simulation relation between a model state and a specification state -/
 structure Rel (be : Backend) (E : Enc κ δ ε) (kindOf : Nat → Kind) (db : Db) (sp : Spec κ δ ε) :
@@ -187,7 +188,8 @@ theorem resolve_eq (be : Backend) (kindOf : Nat → Kind) (db : Db) (id : Nat) (
 theorem relD_congr {be : Backend} {E : Enc κ δ ε} {kindOf : Nat → Kind} {f g : String → Col}
     {w : Nat → δ → κ → Option Bytes} {s : Nat → κ → ε → Bool} (h : ∀ n, g n = f n)
     (hr : RelD be E kindOf f w s) : RelD be E kindOf g w s :=
-  ⟨fun c d k hc => by rw [h]; exact hr.wide c d k hc, fun c hc x => by rw [h]; exact hr.sets c hc x⟩
+  ⟨fun c d k hc => by rw [h]; exact hr.wide c d k hc, fun c hc x => by rw [h]; exact hr.sets c hc x,
+    fun n => by rw [h]; exact hr.nodup n⟩
 
 theorem applyOp_col (d : Disk) (op : WOp) (n : String) :
     (applyOp d op).col n =
@@ -196,6 +198,15 @@ theorem applyOp_col (d : Disk) (op : WOp) (n : String) :
         | none => adel (d.col op.cf) op.key) else d.col n := by
   unfold applyOp
   exact col_aset _ _ _ _
+
+theorem applyOp_nodup (d : Disk) (op : WOp) (h : ∀ n, (akeys (d.col n)).Nodup) (n : String) :
+    (akeys ((applyOp d op).col n)).Nodup := by
+  rw [applyOp_col]
+  split
+  · cases op.val with
+    | some v => exact nodup_akeys_aset _ _ _ (h _)
+    | none => exact nodup_akeys_adel _ _ (h _)
+  · exact h n
 
 /-- one committed operation: the store changes exactly as the specification says -/
 theorem applyOp_rel (be : Backend) (E : Enc κ δ ε) (kindOf : Nat → Kind) (hE : EncOk be E kindOf)
@@ -240,6 +251,7 @@ theorem applyOp_rel (be : Backend) (E : Enc κ δ ε) (kindOf : Nat → Kind) (h
         fun e => by have := (hE.nameInj _ _ _ _ e).1; cases this
       simp only [hn, if_false]
       exact hr.sets c hc x
+    · exact applyOp_nodup _ _ hr.nodup
   | del c0 d0 k0 =>
     have hk0 : kindOf c0 = .wide := hk
     constructor
@@ -273,6 +285,7 @@ theorem applyOp_rel (be : Backend) (E : Enc κ δ ε) (kindOf : Nat → Kind) (h
         fun e => by have := (hE.nameInj _ _ _ _ e).1; cases this
       simp only [hn, if_false]
       exact hr.sets c hc x
+    · exact applyOp_nodup _ _ hr.nodup
   | ins c0 k0 e0 =>
     have hk0 : kindOf c0 = .set := hk
     constructor
@@ -305,6 +318,7 @@ theorem applyOp_rel (be : Backend) (E : Enc κ δ ε) (kindOf : Nat → Kind) (h
         have hcc' : ∀ k e, ¬ (c = c0 ∧ k = k0 ∧ e = e0) := fun _ _ e => hcc e.1.symm
         simp only [hn, if_false, hcc']
         exact hr.sets c hc x
+    · exact applyOp_nodup _ _ hr.nodup
   | rem c0 k0 e0 =>
     have hk0 : kindOf c0 = .set := hk
     constructor
@@ -341,6 +355,7 @@ theorem applyOp_rel (be : Backend) (E : Enc κ δ ε) (kindOf : Nat → Kind) (h
         have hcc' : ∀ k e, ¬ (c = c0 ∧ k = k0 ∧ e = e0) := fun _ _ e => hcc e.1.symm
         simp only [hn, if_false, hcc']
         exact hr.sets c hc x
+    · exact applyOp_nodup _ _ hr.nodup
 
 /-- a whole batch: one store write = the specification's fold -/
 theorem foldl_applyOp_rel (be : Backend) (E : Enc κ δ ε) (kindOf : Nat → Kind)
